@@ -771,12 +771,16 @@ func (o *oracle) checkAcks() {
 		}
 		o.ackSeen[k] = [2]int64{s.Index, s.Time}
 		// ... and after the recompute-cache tool rebuilt the cache from storage,
-		// every entry it read is answered with its first occurrence
+		// every entry it read is answered with an occurrence it read
 		if in.recomputed != nil && in.recomputedEpoch == s.cacheEpoch {
 			if want, ok := in.recomputed[s.Item.Key]; ok {
 				w.sim.Probe("recompute.dedup.checked")
-				if want != [2]int64{s.Index, s.Time} {
-					o.v("C07", "recomputed-cache-miss", "item %d is leaf %d (ts %d) in the tiles recompute-cache rebuilt the cache from, but its resubmission was acknowledged as idx=%d ts=%d", s.Item.ID, want[0], want[1], s.Index, s.Time)
+				found := false
+				for _, x := range want {
+					found = found || x == [2]int64{s.Index, s.Time}
+				}
+				if !found {
+					o.v("C07", "recomputed-cache-miss", "item %d is leaf %v (index, timestamp) in the tiles recompute-cache rebuilt the cache from, but its resubmission was acknowledged as idx=%d ts=%d", s.Item.ID, want, s.Index, s.Time)
 				}
 			}
 		}
